@@ -135,5 +135,296 @@ theorem expand_good (R : Ranked M rank Occ m) : ∀ (F : Nat) (e : Expr),
         · have := R.odeDec s t r ho _ h1
           exact .inr ⟨s, t, by simp [Expr.nodes], by omega, h3⟩
 
+-- ------------------------------------------------------------------------------------------------ the memo
+/-- every entry of the `evaluated` dictionary is the value its variable denotes -/
+def MemoOK (M : RModel) (memo : Memo) : Prop := ∀ d q, memo.lookup d = some q → Den M (.v d) q
+
+theorem beq_ne {a b : Nat} (h : a ≠ b) : (a == b) = false := by simp [h]
+
+theorem lookup_insertKey (k : Nat) (v : Rat) (l : Memo) (k' : Nat) :
+    (insertKey k v l).lookup k' = if k' = k then some v else l.lookup k' := by
+  induction l with
+  | nil =>
+    by_cases h : k' = k
+    · subst h; simp [insertKey]
+    · simp only [insertKey, List.lookup, beq_ne h, if_neg h]
+  | cons p rest ih =>
+    obtain ⟨a, b⟩ := p
+    simp only [insertKey]
+    by_cases hak : a = k
+    · subst hak
+      by_cases h : k' = a
+      · subst h; simp
+      · simp only [if_true, List.lookup, beq_ne h, if_neg h]
+    · simp only [hak, if_false, List.lookup]
+      by_cases h : k' = a
+      · subst h; simp [hak]
+      · rw [beq_ne h]; exact ih
+
+theorem hasKey_cons (k : Nat) (a : Nat) (b : Rat) (rest : Memo) :
+    hasKey k ((a, b) :: rest) = true ↔ a = k ∨ hasKey k rest = true := by
+  simp only [hasKey, List.any_cons, Bool.or_eq_true, decide_eq_true_eq]
+
+theorem hasKey_insertKey (k : Nat) (v : Rat) (l : Memo) (k' : Nat) :
+    hasKey k' (insertKey k v l) = true ↔ k' = k ∨ hasKey k' l = true := by
+  induction l with
+  | nil =>
+    simp only [insertKey, hasKey_cons]
+    constructor
+    · rintro (h | h)
+      · exact .inl h.symm
+      · exact .inr h
+    · rintro (h | h)
+      · exact .inl h.symm
+      · exact .inr h
+  | cons p rest ih =>
+    obtain ⟨a, b⟩ := p
+    simp only [insertKey]
+    by_cases hak : a = k
+    · subst hak
+      simp only [if_true, hasKey_cons]
+      constructor
+      · rintro (h | h)
+        · exact .inl h.symm
+        · exact .inr (.inr h)
+      · rintro (h | h | h)
+        · exact .inl h.symm
+        · exact .inl h
+        · exact .inr h
+    · simp only [hak, if_false, hasKey_cons, ih]
+      constructor
+      · rintro (h | h | h)
+        · exact .inr (.inl h)
+        · exact .inl h
+        · exact .inr (.inr h)
+      · rintro (h | h | h)
+        · exact .inr (.inl h)
+        · exact .inl h
+        · exact .inr (.inr h)
+
+theorem lookup_of_hasKey (l : Memo) (k : Nat) (h : hasKey k l = true) : ∃ q, l.lookup k = some q := by
+  induction l with
+  | nil => simp [hasKey] at h
+  | cons p rest ih =>
+    obtain ⟨a, b⟩ := p
+    by_cases hk : k = a
+    · subst hk; exact ⟨b, by simp [List.lookup]⟩
+    · have h' : hasKey k rest = true := by
+        rcases (hasKey_cons k a b rest).mp h with h | h
+        · exact absurd h.symm hk
+        · exact h
+      obtain ⟨q, hq⟩ := ih h'
+      exact ⟨q, by simp only [List.lookup, beq_ne hk]; exact hq⟩
+
+theorem MemoOK.insert {memo : Memo} (h : MemoOK M memo) {d : Nat} {q : Rat} (hd : Den M (.v d) q) :
+    MemoOK M (insertKey d q memo) := by
+  intro k p hk
+  rw [lookup_insertKey] at hk
+  by_cases hkd : k = d
+  · subst hkd; simp at hk; subst hk; exact hd
+  · simp [hkd] at hk; exact h k p hk
+
+-- ------------------------------------------------------------------------------------------------ evalE
+/-- a plain expression can only denote something if each of its variables does -/
+theorem den_needs_vars : ∀ (e : Expr), e.plain = true → ∀ q, Den M (.e e) q → ∀ d ∈ e.vars, ∃ q', Den M (.v d) q'
+  | .num _, _, _, _, d, hd => by simp [Expr.vars, Expr.nodes] at hd
+  | .var v, _, q, h, d, hd => by
+    simp [Expr.vars, Expr.nodes, Node.atoms] at hd
+    subst hd; exact ⟨q, den_var_iff.mp h⟩
+  | .deriv _ _, hp, _, _, _, _ => by simp [Expr.plain] at hp
+  | .opq _, hp, _, _, _, _ => by simp [Expr.plain] at hp
+  | .bin op a b, hp, q, h, d, hd => by
+    simp only [Expr.plain, Bool.and_eq_true] at hp
+    obtain ⟨p, q', h1, h2, _⟩ := den_bin_iff.mp h
+    rw [vars_bin, List.mem_append] at hd
+    rcases hd with hd | hd
+    · exact den_needs_vars a hp.1 p h1 d hd
+    · exact den_needs_vars b hp.2 q' h2 d hd
+  | .pow a n, hp, q, h, d, hd => by
+    obtain ⟨p, h1, _⟩ := den_pow_iff.mp h
+    exact den_needs_vars a (by simpa [Expr.plain] using hp) p h1 d (by simpa [vars_pow] using hd)
+
+def GoodE (M : RModel) (e : Expr) : Except VErr Rat → Prop
+  | .ok q => Den M (.e e) q
+  | .error err => err ≠ .fuel ∧ ∀ q, ¬ Den M (.e e) q
+
+theorem evalE_good {memo : Memo} (hm : MemoOK M memo) : ∀ (e : Expr), e.plain = true →
+    (∀ d ∈ e.vars, hasKey d memo = true) → GoodE M e (evalE memo e)
+  | .num q, _, _ => Den.num q
+  | .var v, _, hk => by
+    obtain ⟨q, hq⟩ := lookup_of_hasKey memo v (hk v (by simp [Expr.vars, Expr.nodes, Node.atoms]))
+    simp only [evalE, hq]
+    exact Den.var (hm v q hq)
+  | .deriv _ _, hp, _ => by simp [Expr.plain] at hp
+  | .opq _, hp, _ => by simp [Expr.plain] at hp
+  | .bin op a b, hp, hk => by
+    simp only [Expr.plain, Bool.and_eq_true] at hp
+    have iha := evalE_good hm a hp.1 (fun d hd => hk d (by rw [vars_bin]; exact List.mem_append_left _ hd))
+    have ihb := evalE_good hm b hp.2 (fun d hd => hk d (by rw [vars_bin]; exact List.mem_append_right _ hd))
+    simp only [evalE]
+    rcases ha : evalE memo a with ea | p
+    · rw [ha] at iha
+      exact And.intro iha.1 (fun q h => by
+        obtain ⟨p, _, hp', _, _⟩ := den_bin_iff.mp h
+        exact iha.2 p hp')
+    · rw [ha] at iha
+      rcases hb : evalE memo b with eb | q
+      · rw [hb] at ihb
+        exact And.intro ihb.1 (fun r h => by
+          obtain ⟨_, q', _, hq', _⟩ := den_bin_iff.mp h
+          exact ihb.2 q' hq')
+      · rw [hb] at ihb
+        dsimp only
+        rcases hab : applyBin op p q with _ | r
+        · refine And.intro (by decide) (fun r h => ?_)
+          obtain ⟨p', q', h1, h2, h3⟩ := den_bin_iff.mp h
+          have := den_unique h1 iha; subst this
+          have := den_unique h2 ihb; subst this
+          rw [hab] at h3; cases h3
+        · exact Den.bin iha ihb hab
+  | .pow a n, hp, hk => by
+    have iha := evalE_good hm a (by simpa [Expr.plain] using hp) (fun d hd => hk d (by simpa [vars_pow] using hd))
+    simp only [evalE]
+    rcases ha : evalE memo a with ea | p
+    · rw [ha] at iha
+      exact And.intro iha.1 (fun q h => by
+        obtain ⟨p, hp', _⟩ := den_pow_iff.mp h
+        exact iha.2 p hp')
+    · rw [ha] at iha
+      dsimp only
+      rcases hpw : powInt p n with _ | r
+      · refine And.intro (by decide) (fun r h => ?_)
+        obtain ⟨p', h1, h3⟩ := den_pow_iff.mp h
+        have := den_unique h1 iha; subst this
+        rw [hpw] at h3; cases h3
+      · exact Den.pow iha hpw
+
+-- ------------------------------------------------------------------------------------------------ evalDeps / getValueAux
+def GoodV (M : RModel) (d : Nat) (memo : Memo) : Except VErr (Rat × Memo) → Prop
+  | .ok (q, memo') => Den M (.v d) q ∧ MemoOK M memo' ∧ ∀ k, hasKey k memo = true → hasKey k memo' = true
+  | .error err => err ≠ .fuel ∧ ∀ q, ¬ Den M (.v d) q
+
+def GoodDeps (M : RModel) (ds : List Nat) (memo : Memo) : Except VErr Memo → Prop
+  | .ok memo' => MemoOK M memo' ∧ (∀ k, hasKey k memo = true → hasKey k memo' = true) ∧ ∀ d ∈ ds, hasKey d memo' = true
+  | .error err => err ≠ .fuel ∧ ∃ d ∈ ds, ∀ q, ¬ Den M (.v d) q
+
+theorem evalDeps_good (rec : Nat → Memo → Except VErr (Rat × Memo)) (P : Nat → Prop)
+    (hrec : ∀ d memo, MemoOK M memo → P d → GoodV M d memo (rec d memo)) :
+    ∀ (ds : List Nat) (memo : Memo), MemoOK M memo → (∀ d ∈ ds, P d) → GoodDeps M ds memo (evalDeps rec ds memo)
+  | [], memo, hm, _ => by
+    simp only [evalDeps]
+    exact ⟨hm, fun _ h => h, fun d hd => by cases hd⟩
+  | d :: ds, memo, hm, hP => by
+    simp only [evalDeps]
+    by_cases hk : hasKey d memo = true
+    · rw [if_pos hk]
+      have ih := evalDeps_good rec P hrec ds memo hm (fun x hx => hP x (List.mem_cons_of_mem _ hx))
+      rcases hr : evalDeps rec ds memo with err | memo'
+      · rw [hr] at ih
+        obtain ⟨h1, x, hx, h2⟩ := ih
+        exact ⟨h1, x, List.mem_cons_of_mem _ hx, h2⟩
+      · rw [hr] at ih
+        obtain ⟨h1, h2, h3⟩ := ih
+        refine ⟨h1, h2, fun x hx => ?_⟩
+        rcases List.mem_cons.mp hx with rfl | hx
+        · exact h2 _ hk
+        · exact h3 x hx
+    · rw [if_neg hk]
+      have hd := hrec d memo hm (hP d (List.mem_cons_self ..))
+      rcases hr : rec d memo with err | ⟨q, memo1⟩
+      · rw [hr] at hd
+        exact ⟨hd.1, d, List.mem_cons_self .., hd.2⟩
+      · rw [hr] at hd
+        obtain ⟨hq, hm1, hmono⟩ := hd
+        dsimp only
+        have ih := evalDeps_good rec P hrec ds (insertKey d q memo1) (hm1.insert hq)
+          (fun x hx => hP x (List.mem_cons_of_mem _ hx))
+        have hmono' : ∀ k, hasKey k memo = true → hasKey k (insertKey d q memo1) = true :=
+          fun k hk' => (hasKey_insertKey d q memo1 k).mpr (.inr (hmono k hk'))
+        rcases hr2 : evalDeps rec ds (insertKey d q memo1) with err | memo'
+        · rw [hr2] at ih
+          obtain ⟨h1, x, hx, h2⟩ := ih
+          exact ⟨h1, x, List.mem_cons_of_mem _ hx, h2⟩
+        · rw [hr2] at ih
+          obtain ⟨h1, h2, h3⟩ := ih
+          refine ⟨h1, fun k hk' => h2 k (hmono' k hk'), fun x hx => ?_⟩
+          rcases List.mem_cons.mp hx with rfl | hx
+          · exact h2 _ ((hasKey_insertKey _ q memo1 _).mpr (.inl rfl))
+          · exact h3 x hx
+
+theorem not_den_of_no_rhs {v : Nat} (hs : isState M v = false) {r : Expr} (hr : varRhs M v = some r)
+    (hn : ∀ q, ¬ Den M (.e r) q) (q : Rat) : ¬ Den M (.v v) q := by
+  intro h
+  cases h with
+  | state hs' _ => rw [hs] at hs'; cases hs'
+  | defn _ hr' hd => rw [hr] at hr'; cases hr'; exact hn q hd
+  | free _ hr' _ => rw [hr] at hr'; cases hr'
+
+/-- **the evaluator is totally correct on ranked definitions**: with fuel above the measure of the variable (and
+    expansion fuel above the measure of every derivative that occurs) `_get_value` returns the value the variable
+    denotes and leaves a correct dictionary — or it raises something that is not `RecursionError`, and then the
+    variable denotes nothing. -/
+theorem getValueAux_good (R : Ranked M rank Occ m) (F : Nat) (hF : ∀ s t, Occ (.deriv s t) → m (.deriv s t) < F) :
+    ∀ (f v : Nat) (memo : Memo), MemoOK M memo → m (.var v) < f → GoodV M v memo (getValueAux M F f v memo)
+  | 0, _, _, _, h => absurd h (Nat.not_lt_zero _)
+  | f + 1, v, memo, hm, hv => by
+    simp only [getValueAux]
+    by_cases hs : isState M v = true
+    · rw [if_pos hs]
+      rcases hi : initOf M.st v with _ | q
+      · refine And.intro (by decide) (fun q h => ?_)
+        cases h with
+        | state _ hi' => rw [hi] at hi'; cases hi'
+        | defn hs' _ _ => rw [hs] at hs'; cases hs'
+        | free hs' _ _ => rw [hs] at hs'; cases hs'
+      · exact ⟨Den.state hs hi, hm, fun _ h => h⟩
+    · rw [if_neg hs]
+      have hs : isState M v = false := by simpa using hs
+      rcases hr : varRhs M v with _ | r
+      · dsimp only
+        by_cases hfv : freeVar M = some v
+        · rw [if_pos hfv]; exact ⟨Den.free hs hr hfv, hm, fun _ h => h⟩
+        · rw [if_neg hfv]
+          refine And.intro (by decide) (fun q h => ?_)
+          cases h with
+          | state hs' _ => rw [hs] at hs'; cases hs'
+          | defn _ hr' _ => rw [hr] at hr'; cases hr'
+          | free _ _ hf => exact hfv hf
+      · dsimp only
+        have hx := expand_good R F r (fun s t hst => by
+          have := (R.varDec v r hr _ hst).2
+          exact ⟨hF s t this, this⟩)
+        rcases hex : expand M F r with err | r'
+        · rw [hex] at hx
+          exact And.intro hx.1 (not_den_of_no_rhs hs hr hx.2)
+        · rw [hex] at hx
+          obtain ⟨hplain, hden, hvars⟩ := hx
+          dsimp only
+          have hdeps := evalDeps_good (getValueAux M F f) (fun d => m (.var d) < f)
+            (fun d memo' hm' hd => getValueAux_good R F hF f d memo' hm' hd) r'.vars memo hm (fun d hd => by
+              show m (.var d) < f
+              rcases hvars d hd with h1 | ⟨s, t, h1, h2, h3⟩
+              · have := R.varDec v r hr _ h1
+                have := R.mVar d v this.2 this.1
+                omega
+              · have := R.varDec v r hr _ h1
+                have := R.mVar d v h3 (by omega)
+                omega)
+          rcases hdp : evalDeps (getValueAux M F f) r'.vars memo with err | memo'
+          · rw [hdp] at hdeps
+            obtain ⟨h1, d, hd, h2⟩ := hdeps
+            refine And.intro h1 (not_den_of_no_rhs hs hr (fun q hq => ?_))
+            obtain ⟨q', hq'⟩ := den_needs_vars r' hplain q ((hden q).mp hq) d hd
+            exact h2 q' hq'
+          · rw [hdp] at hdeps
+            obtain ⟨hm', hmono, hkeys⟩ := hdeps
+            dsimp only
+            have he := evalE_good hm' r' hplain hkeys
+            rcases hev : evalE memo' r' with err | q
+            · rw [hev] at he
+              exact And.intro he.1 (not_den_of_no_rhs hs hr (fun q hq => he.2 q ((hden q).mp hq)))
+            · rw [hev] at he
+              exact ⟨Den.defn hs hr ((hden q).mpr he), hm', hmono⟩
+
 end
 end Model
